@@ -3,14 +3,20 @@ import MesaModel.Model.Computed
 /-!
 Line-protocol driver for the signals group (C16, C17, C18-signals).  One output line per input line.
 
-  scenario sig  name:kind:t1,t2,… …      C16 machine; kind ∈ obs|lst; the types in the set's iteration order
+  scenario sig  name:kind:t1,t2,… … [prog:h:ACT,ACT…]…   C16 machine; kind ∈ obs|lst; the types in the set's iteration order;
+      prog = the registry calls handler h makes whenever it is called: ACT = o.N.T.g (observe) | u.N.T.g (unobserve) | c.N
+      (clear_all_subscriptions), N: name or *, T: type or *; only calls that are accepted are admitted
+      `|` = class boundary (most derived class first), `ovr:name:kind` = this base class defines `name` as well (overridden)
       observe N T h | unobserve N T h | clear N | drop h         (N: name or *, T: type or *)
       set n v | lassign n vs | lset n i v | lsetslice n a b vs | ldel n i | ldelslice n a b
+      lsetslicex n A B C vs | ldelslicex n A B C      (`slice(A, B, C)`, each an int or N = None)
       linsert n i v | lappend n v | lpop n i | lremove n v | lextend n vs | liadd n vs | lreverse n | lclear n
       subs | get n                               (vs: comma separated ints, `-` = empty)
   scenario comp owner.name.kind,… h:c.c,…       C17 machine; kind ∈ obs|comp; handler programs (`-` = none)
       define c o n TREE | assign o n v | read c | observe o n h | unobserve o n h | drop h
-      TREE: ( ret v ) | ( read o n T… ) | ( readc c T… ) | ( write o n v T )   branch i for value i, last = otherwise
+      TREE: ( ret v ) | ( read o n T… ) | ( readc c T… ) | ( write o n v T ) | ( fail )
+            branch i for value i, last = otherwise (also for `None`); `fail` = the function raises (ZeroDivisionError,
+            `err Zero`); a value v is an int or `N` (Python's `None`)
 -/
 open Mesa.Signals
 
@@ -44,15 +50,22 @@ def fmtInts (l : List Int) : String := "[" ++ ",".intercalate (l.map toString) +
 def fmtVal : Val → String
   | .none => "N" | .int i => toString i | .list l => fmtInts l
 
+def fmtOI : Option Int → String
+  | none => "N" | some i => toString i
+
+def parseOI (s : String) : Option (Option Int) := if s = "N" then some none else s.toInt?.map some
+
 def fmtIdx : Idx → String
   | .none => "N" | .int i => toString i | .slice a b => s!"{a}..{b}"
+  | .sliceX ⟨some a, some b, none⟩ => s!"{a}..{b}"
+  | .sliceX ⟨a, b, c⟩ => s!"{fmtOI a}..{fmtOI b}..{fmtOI c}"
 
 def fmtDeliv (d : Nat × Sig) : String :=
   s!"{d.1}:{d.2.name}:{fmtType d.2.type}:{fmtVal d.2.old}:{fmtVal d.2.new}:{fmtIdx d.2.index}"
 
 def fmtErr : Err → String
   | .value => "err Value" | .key => "err Key" | .index => "err Index" | .attr => "err Attr" | .fuel => "err Fuel"
-  | .noneVal => "ok None"
+  | .user => "err Zero"
 
 def fmtOut : Out → String
   | .err e => fmtErr e
@@ -79,6 +92,8 @@ def parseSigOp (s : St) : List String → Option Op
       | "lsetslice", [a, b, vs] => pure (.lsetSlice n (← a.toInt?) (← b.toInt?) (← parseInts vs))
       | "ldel", [i] => pure (.ldel n (← i.toInt?))
       | "ldelslice", [a, b] => pure (.ldelSlice n (← a.toInt?) (← b.toInt?))
+      | "lsetslicex", [a, b, c, vs] => pure (.lsetSliceX n ⟨← parseOI a, ← parseOI b, ← parseOI c⟩ (← parseInts vs))
+      | "ldelslicex", [a, b, c] => pure (.ldelSliceX n ⟨← parseOI a, ← parseOI b, ← parseOI c⟩)
       | "linsert", [i, v] => pure (.linsert n (← i.toInt?) (← v.toInt?))
       | "lappend", [v] => pure (.lappend n (← v.toInt?))
       | "lpop", [i] => pure (.lpop n (← i.toInt?))
@@ -88,6 +103,19 @@ def parseSigOp (s : St) : List String → Option Op
       | "lreverse", [] => pure (.lreverse n)
       | "lclear", [] => pure (.lclear n)
       | _, _ => none
+  | _ => none
+
+def parseAct (s : String) : Option Act :=
+  match s.splitOn "." with
+  | ["o", n, t, g] => do pure (.observe (← parseSelN n) (← parseSelT t) (← g.toNat?))
+  | ["u", n, t, g] => do pure (.unobserve (← parseSelN n) (← parseSelT t) (← g.toNat?))
+  | ["c", n] => do pure (.clear (← parseSelN n))
+  | _ => none
+
+/-- `prog:h:ACT,ACT…` -/
+def parseSigProg (s : String) : Option (Nat × List Act) :=
+  match s.splitOn ":" with
+  | ["prog", h, acts] => do pure (← h.toNat?, ← (acts.splitOn ",").mapM parseAct)
   | _ => none
 
 def fmtSubs (s : St) : String :=
@@ -102,18 +130,23 @@ open Mesa.Computed in
 section
 open Mesa.Computed
 
+/-- an int or `N` (= `None`) -/
+def parseV (s : String) : Option V := if s = "N" then some none else s.toInt?.map some
+
 inductive Syn where
-  | ret (v : Int)
+  | ret (v : V)
   | read (k : Key) (bs : List Syn)
   | readC (c : Nat) (bs : List Syn)
-  | write (k : Key) (v : Int) (t : Syn)
+  | write (k : Key) (v : V) (t : Syn)
+  | fail
 deriving Inhabited
 
-instance : Inhabited Tree := ⟨.ret 0⟩
+instance : Inhabited Tree := ⟨.ret none⟩
 
 /-- recursive descent; returns the tree and the remaining tokens -/
 partial def parseSyn : List String → Option (Syn × List String)
-  | "(" :: "ret" :: v :: ")" :: rest => do pure (.ret (← v.toInt?), rest)
+  | "(" :: "ret" :: v :: ")" :: rest => do pure (.ret (← parseV v), rest)
+  | "(" :: "fail" :: ")" :: rest => some (.fail, rest)
   | "(" :: "read" :: o :: n :: rest => do
       let (bs, rest) ← parseMany rest
       if bs.isEmpty then none else pure (.read (← o.toNat?, ← n.toNat?) bs, rest)
@@ -123,7 +156,7 @@ partial def parseSyn : List String → Option (Syn × List String)
   | "(" :: "write" :: o :: n :: v :: rest => do
       let (t, rest) ← parseSyn rest
       match rest with
-      | ")" :: rest => pure (.write (← o.toNat?, ← n.toNat?) (← v.toInt?) t, rest)
+      | ")" :: rest => pure (.write (← o.toNat?, ← n.toNat?) (← parseV v) t, rest)
       | _ => none
   | _ => none
 where
@@ -134,14 +167,17 @@ where
       let (ts, rest) ← parseMany rest
       pure (t :: ts, rest)
 
-def pick (bs : List Syn) (v : Int) : Syn :=
-  if 0 ≤ v ∧ v.toNat < bs.length then bs.getD v.toNat default else bs.getLastD default
+def pick (bs : List Syn) (v : V) : Syn :=
+  match v with
+  | some v => if 0 ≤ v ∧ v.toNat < bs.length then bs.getD v.toNat default else bs.getLastD default
+  | none => bs.getLastD default
 
 partial def toTree : Syn → Tree
   | .ret v => .ret v
   | .read k bs => .read k fun v => toTree (pick bs v)
   | .readC c bs => .readC c fun v => toTree (pick bs v)
   | .write k v t => .write k v (toTree t)
+  | .fail => .fail
 
 def parseCDecl (s : String) : Option (Nat × Decl) :=
   match s.splitOn "." with
@@ -169,8 +205,12 @@ def fmtO : Option Int → String
 
 def fmtEntry (e : Entry) : String := s!"{e.h}:{e.owner}.{e.name}:{fmtO e.old}>{fmtO e.new}"
 
-def fmtC (cs : CSt) (old : Mesa.Computed.St) (s : Mesa.Computed.St) (r : R) : String :=
-  let head := match r with | .ok v => s!"ok {v}" | .err e => fmtErr e
+/-- `val` = the operation hands out a value (read, define); the others answer `ok 0` -/
+def fmtC (cs : CSt) (val : Bool) (old : Mesa.Computed.St) (s : Mesa.Computed.St) (r : R) : String :=
+  let head := match r with
+    | .ok (some v) => if val then s!"ok {v}" else "ok 0"
+    | .ok none => if val then "ok None" else "ok 0"
+    | .err e => fmtErr e
   let log := " ".intercalate ((s.log.drop old.log.length).map fmtEntry)
   let evs := " ".intercalate (cs.defined.reverse.map fun c => s!"{c}:{((s.comps c).map (·.evals)).getD 0}")
   s!"{head} | {log} | {evs}"
@@ -180,25 +220,25 @@ def declKind (cs : CSt) (o n : Nat) : Option Kind :=
 
 def stepC (cs : CSt) (ws : List String) : CSt × String :=
   let s := cs.st
-  let fin (cs' : CSt) (r : Option (Mesa.Computed.St × R)) : CSt × String :=
+  let fin (cs' : CSt) (r : Option (Mesa.Computed.St × R)) (val : Bool := false) : CSt × String :=
     match r with
     | none => (cs, "err Fuel")
-    | some (s', r) => let cs'' := { cs' with st := s' }; (cs'', fmtC cs'' s s' r)
+    | some (s', r) => let cs'' := { cs' with st := s' }; (cs'', fmtC cs'' val s s' r)
   match ws with
   | "define" :: c :: o :: n :: toks =>
     match c.toNat?, o.toNat?, n.toNat?, parseSyn toks with
     | some c, some o, some n, some (syn, []) =>
       if cs.defined.contains c ∨ declKind cs o n ≠ some .comp then (cs, "bad-op")
-      else fin { cs with defined := c :: cs.defined } (step cfuel s (.define c o n (toTree syn)))
+      else fin { cs with defined := c :: cs.defined } (step cfuel s (.define c o n (toTree syn))) true
     | _, _, _, _ => (cs, "bad-op")
   | ["assign", o, n, v] =>
-    match o.toNat?, n.toNat?, v.toInt? with
+    match o.toNat?, n.toNat?, parseV v with
     | some o, some n, some v =>
       if declKind cs o n ≠ some .obs then (cs, "bad-op") else fin cs (step cfuel s (.assign (o, n) v))
     | _, _, _ => (cs, "bad-op")
   | ["read", c] =>
     match c.toNat? with
-    | some c => if cs.defined.contains c then fin cs (step cfuel s (.read c)) else (cs, "bad-op")
+    | some c => if cs.defined.contains c then fin cs (step cfuel s (.read c)) true else (cs, "bad-op")
     | none => (cs, "bad-op")
   | ["observe", o, n, h] =>
     match o.toNat?, n.toNat?, h.toNat? with
@@ -218,17 +258,24 @@ end
 
 inductive Mach where
   | none
-  | sig (s : St)
+  | sig (s : St) (progs : List (Nat × List Act))
   | comp (c : CSt)
+
+def progOf (progs : List (Nat × List Act)) (h : Nat) : List Act := (progs.lookup h).getD []
 
 def stepLine (m : Mach) (ws : List String) : Mach × String :=
   match ws with
   | "scenario" :: "sig" :: ds =>
     -- `|` (class boundary) and `natural` (real sets on the Python side) only concern the implementation runner
-    match (ds.filter fun t => t ≠ "|" ∧ t ≠ "natural").mapM parseDecl with
-    | some decls =>
-      if (decls.map (·.name)).eraseDups.length = decls.length then (.sig (init decls), "ok") else (m, "bad-op")
-    | none => (m, "bad-op")
+    -- `ovr:name:kind`: a base class defines the same name again; as in attribute lookup the most derived definition
+    -- is the one in effect (M26 repaired), the overridden one is not a declaration
+    match ((ds.filter fun t => t ≠ "|" ∧ t ≠ "natural" ∧ !t.startsWith "prog:" ∧ !t.startsWith "ovr:").mapM parseDecl),
+          ((ds.filter fun t => t.startsWith "prog:").mapM parseSigProg) with
+    | some decls, some progs =>
+      if (decls.map (·.name)).eraseDups.length = decls.length ∧ (progs.map (·.1)).eraseDups.length = progs.length ∧
+          progs.all (fun p => p.2.all (Act.valid (init decls).reg)) then (.sig (init decls) progs, "ok")
+      else (m, "bad-op")
+    | _, _ => (m, "bad-op")
   | ["scenario", "comp", ds, ps] =>
     match (ds.splitOn ",").mapM parseCDecl, (if ps = "-" then some [] else (ps.splitOn ",").mapM parseProg) with
     | some decls, some progs =>
@@ -240,7 +287,7 @@ def stepLine (m : Mach) (ws : List String) : Mach × String :=
     match m with
     | .none => (m, "bad-op")
     | .comp c => let (c', o) := stepC c ws; (.comp c', o)
-    | .sig s =>
+    | .sig s progs =>
       match ws with
       | ["subs"] => (m, fmtSubs s)
       | ["get", n] =>
@@ -254,7 +301,7 @@ def stepLine (m : Mach) (ws : List String) : Mach × String :=
       | _ =>
         match parseSigOp s ws with
         | none => (m, "bad-op")
-        | some op => let (s', o) := step s op; (.sig s', fmtOut o)
+        | some op => let (s', o) := stepR (progOf progs) s op; (.sig s' progs, fmtOut o)
 
 partial def loop (h : IO.FS.Stream) (out : IO.FS.Stream) (m : Mach) : IO Unit := do
   let line ← h.getLine
